@@ -162,6 +162,10 @@ fn apply_edit(kind: &str, item: &mut Item, o: &J) -> i64 {
                     t.sort_values();
                     -1
                 }
+                "sort_values_by_mod3" => {
+                    t.sort_values_by(|_, a, _, b| (id_item(a) % 3).cmp(&(id_item(b) % 3)));
+                    -1
+                }
                 "clear" => {
                     t.clear();
                     -1
@@ -200,6 +204,10 @@ fn apply_edit(kind: &str, item: &mut Item, o: &J) -> i64 {
                 }
                 "sort_values" => {
                     t.sort_values();
+                    -1
+                }
+                "sort_values_by_mod3" => {
+                    t.sort_values_by(|_, a, _, b| (id_value(a) % 3).cmp(&(id_value(b) % 3)));
                     -1
                 }
                 "clear" => {
@@ -362,6 +370,14 @@ fn apply_seq(s: &mut SeqC, o: &J) -> i64 {
                 a.extend([v, o["v2"].as_i64().unwrap()]);
                 -1
             }
+            "sort_by_key_mod3" => {
+                a.sort_by_key(|x| id_value(x) % 3);
+                -1
+            }
+            "sort_by_mod3" => {
+                a.sort_by(|x, y| (id_value(x) % 3).cmp(&(id_value(y) % 3)));
+                -1
+            }
             _ => panic!("op {op} on array"),
         },
         SeqC::Aot(a) => match op {
@@ -473,6 +489,34 @@ pub fn gen_hist(args: &Args) {
             let seq = kind == "array" || kind == "aot";
             let mut ops = Vec::new();
             let mut cur_len: i64 = 0; // conservative lower bound on the sequence length
+            let full = |o: J| {
+                let mut f = json!({"op": "", "k": "", "v": 0, "k2": "", "ks": [], "i": 0, "vs": [], "v2": 0});
+                for (kk, vv) in o.as_object().unwrap() {
+                    f[kk] = vv.clone();
+                }
+                f
+            };
+            // bulk prefix: enough elements for the sort implementations to leave their small-input paths,
+            // with many ties under the comparator (sort stability)
+            let mut bulk = false;
+            if (kind == "array" || kind == "inline" || kind == "table") && rng.gen_range(0..4) == 0 {
+                bulk = true;
+                let m = rng.gen_range(21..40);
+                for j in 0..m {
+                    let v = [1, 2, 7, 8, 9, 10, 11, 12, 13][rng.gen_range(0..9)];
+                    if seq {
+                        ops.push(full(json!({"op": "push", "v": v})));
+                        cur_len += 1;
+                    } else {
+                        ops.push(full(json!({"op": "insert", "k": format!("k{j:02}"), "v": v})));
+                    }
+                }
+                if seq {
+                    ops.push(full(json!({"op": if rng.gen() { "sort_by_key_mod3" } else { "sort_by_mod3" }})));
+                } else {
+                    ops.push(full(json!({"op": "sort_values_by_mod3"})));
+                }
+            }
             for _ in 0..len {
                 let k = KEYS[rng.gen_range(0..3)];
                 let o = if seq {
@@ -513,7 +557,7 @@ pub fn gen_hist(args: &Args) {
                         6 => json!({"op": "entry_remove", "k": k}),
                         7 if editable => json!({"op": "index_mut", "k": k}),
                         8 if editable => json!({"op": "index_assign", "k": k, "v": 1}),
-                        9 if editable => json!({"op": "sort_values"}),
+                        9 if editable && !bulk => json!({"op": "sort_values"}),
                         10 if !like => json!({"op": "retain", "ks": [KEYS[rng.gen_range(0..3)], KEYS[rng.gen_range(0..3)]]}),
                         11 if !like => json!({"op": "extend", "k": k, "k2": KEYS[rng.gen_range(0..3)], "v": 2}),
                         _ => json!({"op": "insert", "k": k, "v": v}),
